@@ -13,6 +13,7 @@
   * `NewWf n`: argument names are unique per field and per directive ("Duplicate argument" rule).
 -/
 import PyGqlModel.Props.C20_operations
+import PyGqlModel.Props.C20_refl
 import PyGqlModel.Validate.Schema
 
 set_option linter.unusedSimpArgs false
@@ -132,7 +133,8 @@ theorem nobreaking_V_kindOf (o n : SchemaD) (h : diffSchema o n 2 = []) (x : Str
     type; its arguments are kept and none becomes required -/
 theorem nobreaking_V_fieldOf (o n : SchemaD) (h : diffSchema o n 2 = []) (wn : NewWf n)
     (p name : String) (fd : FieldD) (hf : Validate.fieldOf o p name = some fd) :
-    ∃ fd', Validate.fieldOf n p name = some fd' ∧ fd'.type.base = fd.type.base ∧ ArgsRel fd.args fd'.args := by
+    ∃ fd', Validate.fieldOf n p name = some fd' ∧ fd'.type.base = fd.type.base ∧ ArgsRel fd.args fd'.args
+      ∧ safeOut fd.type fd'.type = true := by
   unfold Validate.fieldOf at hf ⊢
   by_cases hk : Validate.isObjOrIface o p = true
   · rw [if_pos hk] at hf
@@ -167,11 +169,12 @@ theorem nobreaking_V_fieldOf (o n : SchemaD) (h : diffSchema o n 2 = []) (wn : N
         exact (absurd_of_breaking' h (removed_field_reported_any o n t t' fd hhost hfm hg) (sev_ge' _ _ (by decide))).elim
       | some g =>
         rw [← hfn, hg]
-        refine ⟨g, rfl, ?_, ?_⟩
-        · cases hso : safeOut fd.type g.type with
-          | true => exact (safeOut_base _ _ hso).symm
+        have hso : safeOut fd.type g.type = true := by
+          cases hso : safeOut fd.type g.type with
+          | true => rfl
           | false =>
             exact (absurd_of_breaking' h (retyped_field_reported_any o n t t' fd g hhost hfm hg hso) (sev_ge' _ _ (by decide))).elim
+        refine ⟨g, rfl, (safeOut_base _ _ hso).symm, ?_, hso⟩
         · have ha := nobreaking_field_arguments_any o n h t t' hhost fd g hfm hg
           have hgm : g ∈ t'.fields := List.mem_of_find?_eq_some hg
           exact argsRel_of fd.args g.args ha.1 ha.2
@@ -237,7 +240,8 @@ theorem nobreaking_V_isComposite (o n : SchemaD) (h : diffSchema o n 2 = []) (x 
 theorem nobreaking_V_getFieldDef (o n : SchemaD) (h : diffSchema o n 2 = []) (wo : OldWf o) (wn : NewWf n)
     (p name : String) (hp : Validate.isComposite o p = true) (fd : FieldD)
     (hf : Validate.getFieldDef o p name = some fd) :
-    ∃ fd', Validate.getFieldDef n p name = some fd' ∧ fd'.type.base = fd.type.base ∧ ArgsRel fd.args fd'.args := by
+    ∃ fd', Validate.getFieldDef n p name = some fd' ∧ fd'.type.base = fd.type.base ∧ ArgsRel fd.args fd'.args
+      ∧ safeOut fd.type fd'.type = true := by
   have hq := nobreaking_query o n h wo
   have hks : (Validate.kindOf o p).isSome = true := by
     unfold Validate.isComposite at hp
@@ -249,15 +253,15 @@ theorem nobreaking_V_getFieldDef (o n : SchemaD) (h : diffSchema o n 2 = []) (wo
   rw [hq, hc]
   by_cases c1 : (o.query == some p && name == "__schema") = true
   · rw [if_pos c1] at hf ⊢
-    exact ⟨fd, hf, rfl, ArgsRel.refl _⟩
+    exact ⟨fd, hf, rfl, ArgsRel.refl _, safeOut_refl _⟩
   · rw [if_neg c1] at hf ⊢
     by_cases c2 : (o.query == some p && name == "__type") = true
     · rw [if_pos c2] at hf ⊢
-      exact ⟨fd, hf, rfl, ArgsRel.refl _⟩
+      exact ⟨fd, hf, rfl, ArgsRel.refl _, safeOut_refl _⟩
     · rw [if_neg c2] at hf ⊢
       by_cases c3 : (Validate.isComposite o p && name == "__typename") = true
       · rw [if_pos c3] at hf ⊢
-        exact ⟨fd, hf, rfl, ArgsRel.refl _⟩
+        exact ⟨fd, hf, rfl, ArgsRel.refl _, safeOut_refl _⟩
       · rw [if_neg c3] at hf ⊢
         exact nobreaking_V_fieldOf o n h wn p name fd hf
 
